@@ -247,20 +247,22 @@ def check(ctx):
     # ---- R5/R6 board effect of each path class equals the rule of chess ------------------------------------------------------
     from props.C03 import board_path_classes
     dmap, umap, n_ev = board_path_classes(p)
-    R = '((side==WHITE)?RANK_1:RANK_8)'
-
     def sqr(f_):
-        return 'make_square(%s,%s)' % (R, f_)
-    EP = '(to(move)+((side==WHITE)?-(8):8))'
+        return '%d;%d' % (sq['SQ_%s1' % f_], sq['SQ_%s8' % f_])
+    FROM, TO = 'from(move);from(move)', 'to(move);to(move)'
+    EP = '(to(move)-8);(to(move)+8)'
+    PROMO = 'make_piece(0,promotion(move));make_piece(1,promotion(move))'
+    kdq = p.enum('engine::PieceKind')['QUEEN']
+    pcs = p.enum('engine::Piece')
+    PROMO_Q = '%d;%d' % (pcs['W_QUEEN'], pcs['B_QUEEN'])
     spec = {
-        ('K', None, None, None): [('move_piece', sqr('FILE_E'), sqr('FILE_G')), ('move_piece', sqr('FILE_H'), sqr('FILE_F'))],
-        ('Q', None, None, None): [('move_piece', sqr('FILE_E'), sqr('FILE_C')), ('move_piece', sqr('FILE_A'), sqr('FILE_D'))],
-        (None, True, False, False): [('move_piece', 'from(move)', 'to(move)'), ('remove_piece', EP)],
-        (None, False, False, False): [('move_piece', 'from(move)', 'to(move)')],
-        (None, False, False, True): [('remove_piece', 'to(move)'), ('move_piece', 'from(move)', 'to(move)')],
-        (None, False, True, False): [('remove_piece', 'from(move)'), ('add_piece', 'make_piece(side,promotion(move))', 'to(move)')],
-        (None, False, True, True): [('remove_piece', 'to(move)'), ('remove_piece', 'from(move)'),
-                                    ('add_piece', 'make_piece(side,promotion(move))', 'to(move)')],
+        ('K', None, None, None): [('move_piece', sqr('E'), sqr('G')), ('move_piece', sqr('H'), sqr('F'))],
+        ('Q', None, None, None): [('move_piece', sqr('E'), sqr('C')), ('move_piece', sqr('A'), sqr('D'))],
+        (None, True, False, False): [('move_piece', FROM, TO), ('remove_piece', EP)],
+        (None, False, False, False): [('move_piece', FROM, TO)],
+        (None, False, False, True): [('remove_piece', TO), ('move_piece', FROM, TO)],
+        (None, False, True, False): [('remove_piece', FROM), ('add_piece', PROMO_Q, TO)],
+        (None, False, True, True): [('remove_piece', TO), ('remove_piece', FROM), ('add_piece', PROMO_Q, TO)],
     }
     for v, want_ev in sorted(spec.items(), key=str):
         name = 'castling-%s' % v[0] if v[0] else 'ep=%d,promo=%d,capture=%d' % (v[1], v[2], v[3])
@@ -269,16 +271,27 @@ def check(ctx):
         ctx.ob('C02.R5.effect', name, ok,
                'board effect of a %s move is %s' % (name, want_ev), site=do.loc(),
                detail={'found': [list(e) for e in (next(iter(got_ev)) if got_ev else [])]})
-    # R6: the en-passant arm is taken only by a pawn landing on the e.p. square
-    eparm = [n for n, cfid, nm in do.calls() if nm == POS + '::remove_piece' and
-             re.match(r'^\(to\(move\)\+\(\(side==WHITE\)\?-\(?8\)?:8\)\)$', canon(do, kids(n)[1], keep=('side',)).replace(' ', ''))]
-    okg = bool(eparm)
-    for n in eparm:
-        gf = dict((canon(do, c_, keep=('side',)).replace(' ', ''), t_) for c_, t_ in guard_facts(do, n))
-        okg = okg and gf.get('(get_piece_kind(_board[from(move)])==PAWN)') is True and \
-            (gf.get('(to(move)==_enpassant_square)') is True or gf.get('(_enpassant_square==to(move))') is True)
+    # R6: the en-passant arm is taken only by a pawn landing on the e.p. square: a piece that is not a pawn and lands on the
+    # current e.p. square (empty by A-EP) just moves
+    from rules.cases import case_events
+    kde = p.enum('engine::PieceKind')
+
+    def is_prim(nm):
+        return nm.startswith(POS + '::') and short(nm) in ('add_piece', 'remove_piece', 'move_piece')
+    okg = True
+    found6 = []
+    for c_ in (0, 1):
+        val6 = {'castling(move)': cas['NO_CASTLING'], 'get_piece_kind(_board[from(move)])': kde['KNIGHT'],
+                'make_piece_kind(_board[from(move)])': kde['KNIGHT'],
+                ('eq',) + tuple(sorted(['_enpassant_square', 'to(move)'])): True, '_board[to(move)]': 0,
+                'make_piece_kind(_board[to(move)])': kde['NO_PIECE_KIND'], 'get_piece_kind(_board[to(move)])': kde['NO_PIECE_KIND'],
+                'promotion(move)': kde['NO_PIECE_KIND']}
+        ev6 = case_events(do, val6, {'side': c_}, is_prim, 'a knight landing on the e.p. square')
+        found6.append(ev6)
+        okg = okg and ev6 == [('move_piece', 'from(move)', 'to(move)')]
     ctx.ob('C02.R6.ep-guard', 'do_move', okg,
-           'the pawn behind the target is removed only when a pawn moves onto the current e.p. square', site=do.loc(eparm[0]) if eparm else do.loc())
+           'the pawn behind the target is removed only when a PAWN moves onto the current e.p. square: another piece landing there just moves (%s)'
+           % found6[0], site=do.loc())
     ctx.ob('C02.R5.classes', 'do_move', set(dmap) == set(spec), 'do_move has exactly the seven path classes of the rules (%s)' % sorted(map(str, dmap)), site=do.loc())
     # replay funnels through parse_uci + do_move
     for hname in ('engine::Uci::position_command', 'engine::Uci::moves_command'):
